@@ -32,6 +32,8 @@ func init() {
 			{ID: "C12.S4", Alias: "C03.R5"},
 			{ID: "C12.S5", Alias: "C02.R6"},
 			{ID: "C12.S6", Alias: "C05.R1"},
+			{ID: "C12.S7", Alias: "C06.R5"},
+			{ID: "C12.S8", Alias: "C03.R4"},
 		},
 	})
 }
